@@ -14,6 +14,7 @@ type Locker = sync.Locker
 type Mutex struct {
 	real   sync.Mutex
 	locked bool
+	clk    vsched.Clock
 }
 
 func (m *Mutex) Lock() {
@@ -23,6 +24,7 @@ func (m *Mutex) Lock() {
 	}
 	vsched.Point(func() bool { return !m.locked }, "Mutex.Lock")
 	m.locked = true
+	m.clk.Acquire()
 }
 
 func (m *Mutex) TryLock() bool {
@@ -34,6 +36,7 @@ func (m *Mutex) TryLock() bool {
 		return false
 	}
 	m.locked = true
+	m.clk.Acquire()
 	return true
 }
 
@@ -45,6 +48,7 @@ func (m *Mutex) Unlock() {
 	if !m.locked {
 		panic("vsync: unlock of unlocked mutex")
 	}
+	m.clk.Release()
 	m.locked = false
 	vsched.Point(nil, "Mutex.Unlock")
 }
@@ -53,6 +57,8 @@ type RWMutex struct {
 	real    sync.RWMutex
 	writer  bool
 	readers int
+	wclk    vsched.Clock // released by writers, acquired by everybody
+	rclk    vsched.Clock // released by readers, acquired by writers
 }
 
 func (m *RWMutex) Lock() {
@@ -62,6 +68,8 @@ func (m *RWMutex) Lock() {
 	}
 	vsched.Point(func() bool { return !m.writer && m.readers == 0 }, "RWMutex.Lock")
 	m.writer = true
+	m.wclk.Acquire()
+	m.rclk.Acquire()
 }
 
 func (m *RWMutex) Unlock() {
@@ -72,6 +80,7 @@ func (m *RWMutex) Unlock() {
 	if !m.writer {
 		panic("vsync: unlock of unlocked rwmutex")
 	}
+	m.wclk.Release()
 	m.writer = false
 	vsched.Point(nil, "RWMutex.Unlock")
 }
@@ -83,6 +92,7 @@ func (m *RWMutex) RLock() {
 	}
 	vsched.Point(func() bool { return !m.writer }, "RWMutex.RLock")
 	m.readers++
+	m.wclk.Acquire()
 }
 
 func (m *RWMutex) RUnlock() {
@@ -93,6 +103,7 @@ func (m *RWMutex) RUnlock() {
 	if m.readers == 0 {
 		panic("vsync: runlock of unlocked rwmutex")
 	}
+	m.rclk.Release()
 	m.readers--
 	vsched.Point(nil, "RWMutex.RUnlock")
 }
@@ -105,20 +116,27 @@ func (r rlocker) Lock()   { r.m.RLock() }
 func (r rlocker) Unlock() { r.m.RUnlock() }
 
 // Map: every operation is one atomic step preceded by a scheduling point.
-type Map struct{ real sync.Map }
+type Map struct {
+	real sync.Map
+	clk  vsched.Clock
+}
 
-func (m *Map) Load(k any) (any, bool) { vsched.Point(nil, "Map.Load"); return m.real.Load(k) }
-func (m *Map) Store(k, v any)         { vsched.Point(nil, "Map.Store"); m.real.Store(k, v) }
+// (happens-before: every operation synchronises with the operations before it, as sync.Map's
+// memory model says for a Load that observes a Store; coarser than per key, never finer)
+func (m *Map) gate(label string) { vsched.Point(nil, label); m.clk.Acquire(); m.clk.Release() }
+
+func (m *Map) Load(k any) (any, bool) { m.gate("Map.Load"); return m.real.Load(k) }
+func (m *Map) Store(k, v any)         { m.gate("Map.Store"); m.real.Store(k, v) }
 func (m *Map) LoadOrStore(k, v any) (any, bool) {
-	vsched.Point(nil, "Map.LoadOrStore")
+	m.gate("Map.LoadOrStore")
 	return m.real.LoadOrStore(k, v)
 }
 func (m *Map) LoadAndDelete(k any) (any, bool) {
-	vsched.Point(nil, "Map.LoadAndDelete")
+	m.gate("Map.LoadAndDelete")
 	return m.real.LoadAndDelete(k)
 }
-func (m *Map) Delete(k any)                { vsched.Point(nil, "Map.Delete"); m.real.Delete(k) }
-func (m *Map) Range(f func(k, v any) bool) { vsched.Point(nil, "Map.Range"); m.real.Range(f) }
+func (m *Map) Delete(k any)                { m.gate("Map.Delete"); m.real.Delete(k) }
+func (m *Map) Range(f func(k, v any) bool) { m.gate("Map.Range"); m.real.Range(f) }
 
 type Once struct {
 	mu   Mutex
@@ -137,12 +155,16 @@ func (o *Once) Do(f func()) {
 type WaitGroup struct {
 	real sync.WaitGroup
 	n    int
+	clk  vsched.Clock
 }
 
 func (w *WaitGroup) Add(d int) {
 	if !vsched.Active() {
 		w.real.Add(d)
 		return
+	}
+	if d < 0 {
+		w.clk.Release()
 	}
 	w.n += d
 	vsched.Point(nil, "WaitGroup.Add")
@@ -154,6 +176,7 @@ func (w *WaitGroup) Wait() {
 		return
 	}
 	vsched.Point(func() bool { return w.n == 0 }, "WaitGroup.Wait")
+	w.clk.Acquire()
 }
 
 type Pool = sync.Pool
